@@ -106,6 +106,13 @@ impl WorkerState {
         log::debug!("Canceling task {task_id}");
         match self.running_tasks.find_mut(&task_id) {
             None => {
+                /* The task may wait in the backlog of prefilled tasks; it has to be
+                  dropped from there, otherwise it would be started later.
+                */
+                if !self.retract_tasks(&[task_id]).is_empty() {
+                    log::debug!("Task removed from prefilled tasks");
+                    return;
+                }
                 /* This may happen that task was computed or when work steal
                   was successful
                 */
